@@ -203,6 +203,27 @@ type delFaultStore struct {
 	c *ctl
 }
 
+// Iter: the iterator faults (`iterfault …`) are injected here, below the storage-metrics wrapper, too.
+func (d *delFaultStore) Iter(ctx context.Context, start, end []byte, ts uint64, limit uint64) (storage.Iter, error) {
+	it, err := d.KvStorage.Iter(ctx, start, end, ts, limit)
+	if err != nil {
+		return nil, err
+	}
+	d.c.mu.Lock()
+	f := d.c.iterFault
+	d.c.iterFault = 0
+	if d.c.iterFaultPersist > 0 && bytes.Equal(start, d.c.iterFaultKey) == d.c.iterFaultEq {
+		f = d.c.iterFaultPersist
+	}
+	d.c.mu.Unlock()
+	if f == 0 {
+		return it, nil
+	}
+	return &itWrap{Iter: it, c: d.c, fault: f}, nil
+}
+
+func (d *delFaultStore) DelCurrentUnwrap(it storage.Iter) storage.Iter { return unwrapIter(it) }
+
 func (d *delFaultStore) Del(ctx context.Context, key []byte) error {
 	switch delOutcome(d.c, "del:"+hx(key)) {
 	case "f":
@@ -220,7 +241,7 @@ func (d *delFaultStore) DelCurrent(ctx context.Context, it storage.Iter) error {
 	case "c":
 		return storage.ErrCASFailed
 	}
-	return d.KvStorage.DelCurrent(ctx, it)
+	return d.KvStorage.DelCurrent(ctx, unwrapIter(it))
 }
 
 func (w *kvWrap) GetTimestampOracle(ctx context.Context) (uint64, error) {
@@ -310,10 +331,13 @@ func (w *kvWrap) Iter(ctx context.Context, start, end []byte, ts uint64, limit u
 		return nil, err
 	}
 	w.c.mu.Lock()
-	f := w.c.iterFault
-	w.c.iterFault = 0
-	if w.c.iterFaultPersist > 0 && bytes.Equal(start, w.c.iterFaultKey) == w.c.iterFaultEq {
-		f = w.c.iterFaultPersist
+	f := 0
+	if !w.delBelow {
+		f = w.c.iterFault
+		w.c.iterFault = 0
+		if w.c.iterFaultPersist > 0 && bytes.Equal(start, w.c.iterFaultKey) == w.c.iterFaultEq {
+			f = w.c.iterFaultPersist
+		}
 	}
 	w.c.mu.Unlock()
 	return &itWrap{Iter: it, c: w.c, fault: f}, nil
